@@ -132,6 +132,30 @@ fn catalogue<T: Prim>() -> Vec<T> {
     out
 }
 
+/// the catalogue plus the 4 next representable values on either side of every finite entry
+/// (domain edges such as asin(1 + 1 ulp), exact ties, the neighbours of 0.5 as exponent ...)
+fn catalogue_with_neighbours<T: Prim>() -> Vec<T> {
+    let base = catalogue::<T>();
+    let mut out = base.clone();
+    for v in base {
+        if v.nan() || !v.is_finite() {
+            continue;
+        }
+        let sign_mask: u64 = if T::NAME == "f32" { 1 << 31 } else { 1 << 63 };
+        let (sign, mag) = (v.bits() & sign_mask, v.bits() & !sign_mask);
+        for k in 1..=4u64 {
+            // bit patterns are monotone in the magnitude
+            out.push(T::from_bits64(sign | (mag + k)));
+            if mag >= k {
+                out.push(T::from_bits64(sign | (mag - k)));
+            }
+        }
+    }
+    let mut seen = std::collections::HashSet::new();
+    out.retain(|v| seen.insert(v.bits()));
+    out
+}
+
 fn describe_op<T: Prim>(o: &Operator<'static, T>) -> String {
     o.repr().to_string()
 }
@@ -141,7 +165,7 @@ where
     <T as std::str::FromStr>::Err: Debug,
 {
     let ops: Vec<Operator<'static, T>> = FloatOpsFactory::<T>::make();
-    let cat = catalogue::<T>();
+    let cat = catalogue_with_neighbours::<T>();
     let mut acc = Acc::default();
     // every listed name must exist, nothing else
     let expected_un = ["+", "-", "abs", "signum", "sin", "cos", "tan", "asin", "acos", "atan", "sinh", "cosh", "tanh", "asinh", "acosh", "atanh", "floor", "round", "ceil", "trunc", "fract", "exp", "sqrt", "cbrt", "ln", "log2", "log10", "log"];
@@ -211,7 +235,7 @@ where
     acc.nontrivial = acc.states;
     acc.sample(json!({"type": T::NAME, "operators": ops.iter().map(describe_op).collect::<Vec<_>>(), "catalogue_size": cat.len()}));
     rep.absorb(acc);
-    rep.bounds.push(format!("{}: every operator and constant of FloatOpsFactory x special-value catalogue ({} values; all ordered pairs for binary operators), bit-for-bit: complete", T::NAME, cat.len()));
+    rep.bounds.push(format!("{}: every operator and constant of FloatOpsFactory x special-value catalogue with the 4 neighbouring representable values on either side of each entry ({} values; all ordered pairs for binary operators), bit-for-bit: complete", T::NAME, cat.len()));
 }
 
 /// the same names through parsed expressions, infix and call form
